@@ -496,6 +496,24 @@ func runC01(c *core.Ctx) {
 		case 3:
 			simpleRoundTrip(c, "proprietary", lorawan.PHYPayload{MHDR: lorawan.MHDR{MType: lorawan.Proprietary, Major: major}, MIC: mic,
 				MACPayload: &lorawan.DataPayload{Bytes: r.Bytes(r.Intn(251))}})
+			if r.Chance(1, 3) {
+				// frames whose base64 text happens to look like something else: only hex digits, only decimal
+				// digits, only letters (built backwards from the text; proprietary frames start with '4'..'7')
+				alpha := []string{"0123456789abcdefABCDEF", "0123456789", "abcdefABCDEF", "0123456789abcdef"}[r.Intn(4)]
+				txt := []byte{"4567"[r.Intn(4)]}
+				if alpha == "abcdefABCDEF" {
+					txt[0] = '4'
+				}
+				for n := 4 * (2 + r.Intn(12)); len(txt) < n; {
+					txt = append(txt, alpha[r.Intn(len(alpha))])
+				}
+				if raw, err := base64.StdEncoding.DecodeString(string(txt)); err == nil && len(raw) >= 5 && raw[0]>>5 == 7 && raw[0]&0x1c == 0 {
+					var m4 [4]byte
+					copy(m4[:], raw[len(raw)-4:])
+					simpleRoundTrip(c, "proprietary-lookalike-text", lorawan.PHYPayload{MHDR: lorawan.MHDR{MType: lorawan.Proprietary, Major: lorawan.Major(raw[0] & 3)}, MIC: lorawan.MIC(m4),
+						MACPayload: &lorawan.DataPayload{Bytes: append([]byte{}, raw[1:len(raw)-4]...)}})
+				}
+			}
 		case 4:
 			joinAcceptRoundTrip(c, r)
 		}
